@@ -13,7 +13,8 @@ Inductive prim :=
 | PBytes                       (* bytes::Bytes *)
 | PUuid | PBigInt | PBigDecimal
 | PWeekday | PMonth | PFixedOffset | PTz | PDateTimeUtc | PNaiveDate | PNaiveTime
-| PNaiveDateTime | PDateTimeLocal | PDateTimeFixed | PDateTimeTz.
+| PNaiveDateTime | PDateTimeLocal | PDateTimeFixed | PDateTimeTz
+| PVarU32 | PVarI32.          (* the public var-int writers, used directly by hand-written codecs *)
 
 Inductive seqk := KVec | KSlice | KLinkedList | KHashSet | KBTreeSet | KArray (n : N).
 Inductive mapk := KHashMap | KBTreeMap.
